@@ -167,7 +167,9 @@ def run_shards(header, cases, checker, tag, shard=250, timeout=900, post=""):
                 "Definition cases := [\n" + ";\n".join(cases[k:k + shard]) + "\n].",
                 "Fixpoint bad_ (i : nat) l := match l with [] => [] | c :: r => match %s c with O => bad_ (S i) r "
                 "| k => (i, k) :: bad_ (S i) r end end." % checker,
-                "Eval vm_compute in bad_ 0 cases.", post]
+                "Set Printing Width 1000000.",
+                "Eval vm_compute in bad_ 0 cases.",
+                "Eval vm_compute in (length (bad_ 0 cases) + 1000000)%nat.", post]
         (tmp / (name + ".v")).write_text("\n".join(body))
         files.append((k, name))
     procs, bad, errors = [], {}, []
@@ -189,7 +191,11 @@ def run_shards(header, cases, checker, tag, shard=250, timeout=900, post=""):
             m = re.search(r"=\s*(\[.*?\])\s*:\s*list", out, re.S)
             if not m:
                 errors.append("%s: unparsable %s" % (name, out[-500:])); continue
-            for i, code in re.findall(r"\((\d+)(?:%nat)?\s*,\s*(\d+)(?:%nat)?\)", m.group(1)):
+            pairs = re.findall(r"\(\s*(\d+)(?:%nat)?\s*,\s*(\d+)(?:%nat)?\s*\)", m.group(1))
+            mc = re.search(r"=\s*1(\d{6})\s*:\s*nat", out)
+            if not mc or int(mc.group(1)) != len(pairs):   # never lose a failing case to the pretty-printer
+                errors.append("%s: %s failing cases counted by Coq, %d parsed" % (name, mc.group(1) if mc else "?", len(pairs))); continue
+            for i, code in pairs:
                 bad[k + int(i)] = int(code)
         running = still
         if running:
